@@ -141,6 +141,32 @@ PROPS = {
                       "exhaustive small scope (bounded), hence category 'other'.",
         "level_note": "Trusted: Graph-level contracts (proved in C01), freshness of BNode(), PyVC/z3/cvc5.",
     },
+    "C20": {
+        "modules": ["contracts.c20_queue"],
+        "claim_level": "other",
+        "design_ref": "6.20",
+        "technique": TECH,
+        "clauses_decided": [
+            "decides only the edit-queue clause: SPARQLUpdateStore.add/remove queue exactly one write after the earlier "
+            "ones (autocommit off) or send the queue at once (autocommit on); when they raise (no update endpoint, blank "
+            "node) nothing is queued or sent; commit() sends all queued writes joined in call order in ONE request and "
+            "empties the queue; rollback() discards exactly the unsent ones; len() commits first unless dirty_reads "
+            "(proved, with _update abstracted as a ghost append to `sent`)",
+        ],
+        "clauses_not_decided": [
+            "that the generated SPARQL query/update text means the intended pattern at a conforming endpoint (triples, "
+            "triples_choices, __len__, contexts, _node_to_sparql, _inject_prefixes, _insert_named_graph), HTTP and result "
+            "decoding: not decidable by function contracts; covered only by the bounded loop-back stand-in",
+        ],
+        "explanation": "The queue discipline is a data-structure property of one class and is proved; text semantics at "
+                       "a remote endpoint is outside this family (DESIGN 6.20) and gets the in-process loop-back "
+                       "stand-in (labelled bounded).",
+        "assumptions": A_COMMON,
+        "level_text": "Proof of the edit-queue clause only; everything about the meaning of generated SPARQL text is "
+                      "bounded (in-process loop-back endpoint answering with rdflib's own engine), hence 'other'.",
+        "level_note": "Trusted: _update/_query as external functions (ghost `sent`), '%'-formatting/join/n3 as "
+                      "uninterpreted functions, PyVC/z3.",
+    },
     "C17": {
         "modules": ["contracts.c17_store"],
         "claim_level": "proof",
